@@ -6,7 +6,8 @@ Model/Colliders.v (attributes with layout tags, numba signature layouts and the
 harness/tables_c14.py before the build).
 
 Tie to the code, on every run:
-  * property oracle (independent of the model): after a random history the object that
+  * property oracle (independent of the model): EVERY query of the history is repeated on a NEW
+    object built at the pose reached so far and must agree; after the history the object that
     lived through it and a NEW object built directly at the last pose must give the same
     support points / AABB / centre / first vertex / collider2origin (bitwise; MeshGraph:
     support VALUE within 1e-9 L since the cached start vertex may differ) and the same
@@ -206,6 +207,31 @@ def gen_case(rng, malformed=False):
     n = rng.randint(1, 8)
     ops = []
     cur = pose0
+    track = None
+    if not malformed and rng.random() < 0.3:
+        # "tracking" history: the SAME query repeated immediately before and after update_pose (and twice in a
+        # row), as a trajectory player asking for the highest point / the AABB along a path does
+        track = gen_dir(rng) if rng.random() < 0.8 else [0.0, 0.0, 1.0]
+        qk = rng.choice(["support", "support", "support", "aabb", "first_vertex", "center", "gjk"])
+        other = gen_other(rng, cur)
+
+        def q():
+            if qk == "support":
+                return dict(op="support", d=list(track))
+            if qk == "gjk":
+                return dict(op="gjk", other=other)
+            return dict(op=qk)
+        for _ in range(rng.randint(1, 4)):
+            if rng.random() < 0.8:
+                ops.append(q())
+            if rng.random() < 0.25:
+                ops.append(q())
+            o = gen_update(rng, False)
+            cur = o.get("pose", cur)
+            ops.append(o)
+            if rng.random() < 0.7:
+                ops.append(q())
+        n = 0
     for _ in range(n):
         k = rng.random()
         if k < 0.42 or not ops:
@@ -227,6 +253,8 @@ def gen_case(rng, malformed=False):
             o = dict(op="gjk", other=gen_other(rng, cur))
         ops.append(o)
     dirs = [[1.0, 0, 0], [0, -1.0, 0], [0, 0, 1.0]] + [gen_dir(rng) for _ in range(4)]
+    if track is not None:
+        dirs[0] = list(track)      # the final battery starts with the tracked direction once more
     return dict(cls=cls, params=gen_params(rng, cls), margins=margins, pose0=pose0, ops=ops,
                 probe_dirs=dirs, probe_others=[gen_other(rng, cur) for _ in range(2)],
                 malformed=malformed)
@@ -259,6 +287,29 @@ def judge_case(case, r):
                 continue   # GJK's own sanity assertion (C19), judged below against the fresh object
             fails.append(f"op {k} ({op['op']}{'/' + op.get('src', '') if op['op'] == 'update' else ''}) "
                          f"raised {t['exc']}: {t.get('msg', '')[:80]}")
+        ref = t.get("ref")
+        if ref is not None and t["exc"] is None:
+            if ref["exc"] is not None:
+                if not (op["op"] == "gjk" and ref["exc"] == "AssertionError"):
+                    fails.append(f"op {k} ({op['op']}): the reference object raised {ref['exc']}")
+            elif op["op"] == "gjk":
+                if fkey(t["r"][:1]) == fkey(ref["r"][:1]):
+                    stats["bitwise"] += 1
+                elif abs(t["r"][0] - ref["r"][0]) > 1e-9 * scale_of(case, r):
+                    fails.append(f"op {k}: gjk distance {t['r'][0]!r} differs from a new object at the same pose {ref['r'][0]!r}")
+            elif fkey(t["r"]) == fkey(ref["r"]):
+                stats["bitwise"] += 1
+            elif case["cls"] == "mesh" and op["op"] == "support":
+                d = op["d"]
+                va = sum(x * y for x, y in zip(t["r"], d))
+                vb = sum(x * y for x, y in zip(ref["r"], d))
+                nd = math.sqrt(sum(x * x for x in d))
+                if abs(va - vb) > 1e-9 * scale_of(case, r) * max(nd, 1e-300) and abs(va - vb) > 1e-300:
+                    fails.append(f"op {k}: support({d}) value {va!r} differs from a new object at the same pose {vb!r}")
+                else:
+                    stats["mesh_value"] += 1
+            else:
+                fails.append(f"op {k} ({op['op']}): {t['r']} differs from a new object at the same pose {ref['r']}")
         if op["op"] == "update" and not (t["pose_layout"]["c"] and t["pose_layout"]["shape"] == [4, 4]
                                          and t["pose_layout"]["dtype"] == "float64"):
             fails.append(f"harness: pose source {op['src']} did not give a C-contiguous float64 4x4 array")
@@ -411,7 +462,8 @@ def run(tier, seed, replay=None):
         "case = collider class (sphere/capsule/cylinder/cone/box/ellipsoid/disk/ellipse/mesh) x 0-2 Margin wrappers x "
         "history of 1-8 ops (update_pose with the pose as fresh array | item of an np.stack | returned by a "
         "pytransform3d TransformManager (direct edge / concatenated path); support_function | aabb | center | "
-        "first_vertex | collider2origin | gjk.gjk vs another collider); poses = identity / 24 axis permutations (x 45 deg) "
+        "first_vertex | collider2origin | gjk.gjk vs another collider; 30% 'tracking' histories: the SAME query "
+        "immediately before and after each update_pose and twice in a row, the final battery starting with it again); poses = identity / 24 axis permutations (x 45 deg) "
         "/ random quaternions, translations lattice / uniform / up to 1e3. After the history: 7 support directions, aabb, "
         "center, first_vertex, collider2origin, gjk.gjk and gjk_intersection vs 2 probe colliders, 3 supports again — "
         "on the surviving object and on a new object built at the last pose. non-trivial = at least one update_pose "
